@@ -39,12 +39,24 @@ def mixed_alpha(case):
     return len(alphas) > 1
 
 
-def tolerated_crossing(vs):
-    """some order ends with crossed bounds that NO formula reports as a contradiction (they lie inside one classical region of
-    a formula with alpha < 1): the signature of D16"""
-    for v in vs:
-        if v["contra"] == "c 0" and any(lo > hi for lo, hi in streams.parse_dump(v["final"])):
-            return True
+def contra_under(alpha, lo, hi):
+    """is_contradiction of a formula with threshold alpha: crossed, and not inside one classical region"""
+    return lo > hi and not (lo >= alpha and hi >= alpha) and not (lo <= 1 - alpha and hi <= 1 - alpha)
+
+
+def tolerated_crossing(rec):
+    """the signature of D16 (silent arrest): some order ends with a formula whose bounds are crossed but tolerated under its OWN
+    alpha, while the knowledge base contains a formula with a larger alpha under which the same bounds ARE a contradiction
+    (its operators re-check their operands under their own alpha and stop without anything being reported)"""
+    nodes = rec["prog"]["kb"]["nodes"]
+    alpha = {n["id"]: Fr(n.get("alpha", 1)) for n in nodes}
+    alphas = set(alpha.values())
+    ids = rec["meta"]["ids"]
+    for v in rec["meta"]["variants"]:
+        for i, (lo, hi) in zip(ids, streams.parse_dump(v["final"])):
+            if lo > hi and i in alpha and not contra_under(alpha[i], lo, hi):
+                if any(a > alpha[i] and contra_under(a, lo, hi) for a in alphas):
+                    return True
     return False
 
 
@@ -53,7 +65,10 @@ def oracle(rec):
     if rec["safe_upto"] < len(rec["lines"]):
         return None          # some value left the exactly representable range: not judged
     contras = {v["contra"] for v in vs}
-    flags = {"mixed_alpha": mixed_alpha(rec["prog"]), "tolerated_crossing": tolerated_crossing(vs)}
+    # model_reproduces: the Lean model (which has the per-formula alpha and the silent arrest) computes exactly what the
+    # implementation computed in every variant of this case, i.e. the order dependence is the listed one and not a new one
+    flags = {"mixed_alpha": mixed_alpha(rec["prog"]), "tolerated_crossing": tolerated_crossing(rec),
+             "model_reproduces": bool(rec.get("model_agrees"))}
     if len(contras) > 1:
         return dict(flags, problem="whether a contradiction is found depends on the order",
                     variants=[(v["kind"], v["roots"], v["contra"]) for v in vs])
@@ -74,10 +89,13 @@ def run(rep, tier, seed):
     wrec = engine.run_cases("prop", "run_c07", [wcase], jobs=1)[0]
     if "crash" not in wrec:
         wrec["prog"] = wcase
+        engine.model_outputs([wrec])
+        wdis, wsafe, _ = engine.compare_record(wrec, FACETS)
         wrec["safe_upto"] = len(wrec["lines"])
+        wrec["model_agrees"] = not wdis
         wbad = oracle(wrec)
         rep.extra["known_finding_D16_witness_reproduces"] = bool(wbad)
-        if wbad and wbad.get("mixed_alpha") and wbad.get("tolerated_crossing"):
+        if wbad and wbad.get("mixed_alpha") and wbad.get("tolerated_crossing") and wbad.get("model_reproduces"):
             rep.enable_known("D16")
     n = size(tier, 120, 2500)
     cases = [gen_case(seed, k, "interp") for k in range(n // 2)] + [gen_case(seed, k + 10 ** 6, "given") for k in range(n - n // 2)]
@@ -102,6 +120,7 @@ def run(rep, tier, seed):
         vs = r["meta"]["variants"]
         multi = vs[0].get("steps", 0) >= 3 and len({tuple(v["roots"]) for v in vs}) >= 1
         rep.count_case(streams.canon(r["prog"]), multi and safe == len(r["lines"]))
+        r["model_agrees"] = not dis
         bad = oracle(r)
         if bad:
             rep.violation("order-dependence", bad, {"case": streams.ser(r["prog"]), "failure": bad, "data": r["meta"]["data"]})
